@@ -83,6 +83,18 @@ LcskppOk(ms, k, path, score) ==
          /\ ValidChain(ms, k, path)
          /\ score = LcskScore(ms, k, path)
          /\ score = LcskOpt(ms, k)
+\* lcskpp's exposed dp_vector (documented as "can generally be ignored"): entry i = <<best score of a
+\* chain ending in match i, predecessor index or -1>>. Not promised by the property: judged as
+\* machine-layer conformance only (DRIFT, not REJECT).
+DpVectorOk(ms, k, dp) ==
+    LET F == OptTable(ms, k, << >>) IN
+    /\ Len(dp) >= Len(ms)                      \* (the code allocates one slot per event; the first M are used)
+    /\ \A i \in 1..Len(ms) :
+          /\ Len(dp[i]) = 2 /\ dp[i][1] = F[i]
+          /\ IF dp[i][2] < 0 THEN F[i] = k
+             ELSE /\ dp[i][2] < i - 1
+                  /\ StepOk(ms[dp[i][2] + 1], ms[i], k)
+                  /\ F[i] = F[dp[i][2] + 1] + StepGain(ms[dp[i][2] + 1], ms[i], k)
 ChainOk(ms, k, path) ==            \* sdpkpp, sdpkpp_union_lcskpp_path: a valid chain, non-empty
     IF ms = << >> THEN path = << >>
     ELSE path # << >> /\ IsNatSeq(path) /\ ValidChain(ms, k, path)
